@@ -206,6 +206,26 @@ def task_cases(thorough, seed):
     # a grandchild keeps the pipe open and writes after the shell has exited
     cases.append({"id": "late_writer", "payload": {"tool": "bash", "args": {"command": "(sleep 2.6; printf 'late\\n') & printf 'early\\n'"}},
                   "page_sizes": [64], "settle_ms": 1300, "_exp": {"stdout": b"early\nlate\n", "stderr": b""}, "_cap": big, "_prev": big, "_kind": "ascii", "_exit": 0})
+    # random tasks: 0-8 writes of sizes around 0, the character widths, the 4 / 8 KiB read sizes; caps and preview limits around the
+    # same values; any exit code; some cancelled at a random moment
+    import random
+    rnd = random.Random(seed * 104729 + 5)
+    sizes = [0, 1, 2, 3, 4, 5, 63, 64, 65, 4095, 4096, 4097, 8191, 8192, 8193, 12289]
+    limits = [0, 1, 2, 3, 4, 5, 7, 64, 4096, 8191, 8192, 8193, big]
+    for i in range(200 if thorough else 16):
+        kind = rnd.choice(["ascii", "utf8", "bin"])
+        chunks, total = [], 0
+        for _ in range(rnd.randint(0, 8)):
+            n = rnd.choice(sizes)
+            if total + n > 24000:
+                continue
+            total += n
+            chunks.append((rnd.choice(["stdout", "stderr"]), payload(kind, n, rnd.randrange(50)), rnd.choice([0, 0, 5, 30])))
+        kw = {}
+        if rnd.random() < 0.2:
+            chunks = [(s_, b_, g_ + 60) for s_, b_, g_ in chunks]
+            kw = {"cancel": True, "cancel_after_ms": rnd.choice([0, 40, 120, 300])}
+        add(f"rnd{seed}_{i}", chunks, cap=rnd.choice(limits), prev=rnd.choice(limits), exit_code=rnd.choice([0, 0, 1, 3, 255]), kind=kind, **kw)
     return cases
 
 
@@ -268,9 +288,13 @@ def task_events(c, res):
             if hi - lo <= lim:
                 ok = chunk == lossy(src)
             else:
-                # cut back to a character boundary at or below the limit
+                # cut back to a character boundary at or below the limit.  The preview must be a prefix within the limit (the
+                # property); that it is not needlessly short is only asked where the answer does not depend on how the pipe
+                # happened to be read: ascii, or a range that starts on a character boundary (a read that starts in the middle
+                # of a multi-byte character has no valid prefix and the code's preview is empty)
                 cb = chunk.encode()
-                ok = len(cb) <= lim and src.startswith(cb) and (len(cb) >= lim - 3 or c["_kind"] == "bin")
+                starts_on_boundary = c["_kind"] == "ascii" or (c["_kind"] == "utf8" and len(src) > 0 and (src[0] & 0xC0) != 0x80)
+                ok = len(cb) <= lim and src.startswith(cb) and (len(cb) >= lim - 3 or not starts_on_boundary)
             e["data_ok"] = bool(ok) or cancelled
             prev_total[s] = hi
         e.pop("_base", None)
@@ -348,6 +372,23 @@ def run(tier, seed):
         c = by_id[res["id"]]
         judge_shell(v, c, res)
         v.add_eval({"shell": c["id"], "m": c["_m"], "u": c["_u"], "kind": c["_kind"]}, len(c["_m"]["chunks"]) >= 2 or c["_stream"] == "both")
+    # ---- the artifact is complete the moment the tool has ended: one small capped case repeated on all cores at once (the bytes of
+    #      a blob whose last write is still completing in the background are missing for an instant; fixed, 6f13b00)
+    base = next(c for c in scases if c["_m"]["A"] and c["_u"] == 700 and c["_m"]["A"] * c["_u"] < sum(c["_m"]["chunks"]) * c["_u"])
+    rep = [dict({k: base[k] for k in base if not k.startswith("_")}, id=f"now{i}", page_sizes=[]) for i in range(28800 if thorough else 9600)]
+    short = 0
+    for res in run_harness("shellcap", rep, wd, "now", shards=16, timeout=1200):
+        ended = next((f for f in res["frames"] if f["type"] == "tool_ended"), None) or {}
+        for stream in ("stdout", "stderr"):
+            ref = ((ended.get("artifacts") or {}).get(stream) or {}).get("artifact")
+            if ref:
+                have = len(bytes.fromhex((res["artifacts"].get(stream) or {}).get("hex", "")))
+                if have != ref["bytes"] and short == 0:
+                    v.violation(f"read the moment the tool has ended, the {stream} artifact holds {have} bytes, its reference says {ref['bytes']} ({res['id']} of {len(rep)} identical runs)",
+                                {"engine": "shellcap", "case": {k: base[k] for k in base if not k.startswith("_")}, "guard": "complete_at_end"})
+                    short += 1
+    v.add_eval({"shell": "artifact_complete_when_tool_ended", "runs": len(rep)}, True)
+    v.cov["artifact_complete_at_tool_end_runs"] = len(rep)
     # ---- background tasks
     tcases = task_cases(thorough, seed)
     tres = run_harness("tasklife", [{k: c[k] for k in c if not k.startswith("_")} for c in tcases], wd, "task", shards=14, timeout=2400)
@@ -412,7 +453,7 @@ def replay(path, seed):
         cases = [c for c in allc if c["args"] == rep["case"]["case"]["args"] and c.get("artifact_max_bytes") == rep["case"]["case"].get("artifact_max_bytes")][:1]
         if not cases:
             return 2
-        res = run_harness("shellcap", [{k: c[k] for k in cases[0] if not k.startswith("_")}], wd, "replay")[0]
+        res = run_harness("shellcap", [{k: cases[0][k] for k in cases[0] if not k.startswith("_")}], wd, "replay")[0]
         v.findings = []
         judge_shell(v, cases[0], res)
         if v.violations:
